@@ -43,15 +43,22 @@ def twin_programs(tier):
     return out
 
 
+_RUST_WORDS = {"let", "mut", "match", "for", "in", "while", "if", "else", "return", "self", "Self", "Ok", "Err", "Some", "None", "fn", "impl", "move", "ref", "as", "loop", "break", "continue"}
+
+
 def root_cause(detail):
-    """Class of a twin that does not build: the first rustc error message and the generated Rust line it points at, with
-    numbers erased - the same defect reached through different rule x context twins is one class, whichever twins a tier
-    happens to enumerate."""
+    """Class of a twin that does not build: the first rustc error message and the shape of the generated Rust line it
+    points at (identifiers and numbers erased) - the same defect reached through different rule x context twins is one
+    class, whichever twins a tier happens to enumerate."""
     m = re.search(r"error(?:\[E\d+\])?: ([^\n]*)\n(?:[^\n]*\n){0,3}?\s*\d+ \| ([^\n]*)", detail or "")
     if not m:
         return "-"
-    norm = lambda t: re.sub(r"[^A-Za-z0-9_(){}|=>&.:,\[\]]+", "_", re.sub(r"\d+", "N", t.strip()))[:60].strip("_")
-    return norm(m.group(1)) + "|at:" + norm(m.group(2))
+    clean = lambda t: re.sub(r"[^A-Za-z0-9_(){}|=>&.:,\[\]]+", "_", t.strip()).strip("_")
+    msg = clean(re.sub(r"\d+", "N", m.group(1)))[:60]
+    shape = re.sub(r"[A-Za-z_][A-Za-z0-9_]*", lambda w: w.group(0) if w.group(0) in _RUST_WORDS else "_", m.group(2))
+    shape = re.sub(r"(\|[^|]*\|).*", r"\1", shape)  # a closure is classified by its header, not by its body
+    shape = clean(re.sub(r"\d+", "N", shape))[:40]
+    return msg + "|at:" + shape
 
 
 def run(tier):
@@ -110,13 +117,17 @@ def run(tier):
         if key in out.known_seen:
             out.known_seen[key][0] = len(cs)
     typed_cov, typed_sigs = typed_part(out, tier)
+    lv_cov, lv_sigs = lvalue_part(out)
+    typed_cov = {**typed_cov, **lv_cov}
+    typed_sigs = typed_sigs | lv_sigs
     ok_sigs = {u.tags for u in accepted if u.name in ran} | {sig for (i, sig, src) in to_build if res[i].ok} | typed_sigs
     cov = {
         "evaluations": len(units) + len(twins),
         "distinct_nontrivial": len(ok_sigs),
         "rule": "programs = every unit of the semantic corpus (see C01) + the benign twin of every C03 rule x context case (quick: level 1 and a sixth of level 2; thorough: all of "
         "level 2 and a ninth of level 3), each with a main; + 41 typed expression atoms alone, nested in 7 container forms, and in all ordered pairs within one function "
-        "(packed 60 functions per program, bisected; a pack that only fails as a whole is reported as such); domain = programs the real checker accepts; oracle = try_generate succeeds and `incan build` exits 0; "
+        "(packed 60 functions per program, bisected; a pack that only fails as a whole is reported as such); + assignment targets: base (local, `mut` parameter, field of `mut self`) x 11 "
+        "paths of fields and indices up to four steps deep (constant and variable index) x operator (=, +=), bisected per base; domain = programs the real checker accepts; oracle = try_generate succeeds and `incan build` exits 0; "
         "non-trivial = distinct signatures of accepted programs that built",
         "samples": [{"sig": list(sig), "program": src} for sig, src in common.pick_samples(twins)],
         "exhaustive": True,
@@ -237,6 +248,96 @@ def typed_functions(tier, atoms=None):
 
 
 TYPED_PACK = 60
+
+# ---- assignment targets: base x path x operator ----------------------------------------------------------------------------
+LV_PRELUDE = """model Inner:
+    b: int
+    c: List[int]
+
+
+model Outer:
+    a: Inner
+    items: List[Inner]
+    n: int
+
+
+def mk_outer() -> Outer:
+    return Outer(a=Inner(b=1, c=[1, 2]), items=[Inner(b=2, c=[3])], n=0)
+
+
+"""
+LV_PATHS_ONE = {"field": "{X}.n", "field2": "{X}.a.b", "field2_index": "{X}.a.c[0]", "field_index_field": "{X}.items[0].b", "field_index_field_index": "{X}.items[0].c[0]"}
+LV_PATHS_MANY = {
+    "index_field": "{XS}[0].n",
+    "index_field2": "{XS}[0].a.b",
+    "index_field2_index": "{XS}[0].a.c[0]",
+    "index_field_index_field": "{XS}[0].items[0].b",
+    "varindex_field": "{XS}[i].n",
+    "varindex_field2": "{XS}[i].a.b",
+}
+LV_OPS = {"assign": "= 5", "cadd": "+= 1"}
+
+
+def lvalue_functions():
+    """Yield (sig, declaration text): one function / method per (base, path, operator)."""
+    k = 0
+    for pk, path in {**LV_PATHS_ONE, **LV_PATHS_MANY}.items():
+        many = pk in LV_PATHS_MANY
+        for ok_, op in LV_OPS.items():
+            k += 1
+            # local
+            tgt = path.replace("{X}", "o").replace("{XS}", "os")
+            decl = "mut os = [mk_outer()]" if many else "mut o = mk_outer()"
+            yield ("lvalue:local", f"path:{pk}", f"op:{ok_}"), f"def lv_local_{k}(i: int) -> None:\n    {decl}\n    {tgt} {op}\n"
+            # mut parameter
+            par = "mut os: List[Outer]" if many else "mut o: Outer"
+            yield ("lvalue:mut_param", f"path:{pk}", f"op:{ok_}"), f"def lv_param_{k}({par}, i: int) -> None:\n    {tgt} {op}\n"
+            # field of self in a `mut self` method
+            stgt = path.replace("{X}", "self.o").replace("{XS}", "self.os")
+            fld = "os: List[Outer]" if many else "o: Outer"
+            yield ("lvalue:self_field", f"path:{pk}", f"op:{ok_}"), f"class LvHolder{k}:\n    {fld}\n\n    def run(mut self, i: int) -> None:\n        {stgt} {op}\n"
+
+
+def lvalue_part(out):
+    tail = "\n\ndef main() -> None:\n    pass\n"
+    funs = list(lvalue_functions())
+    reqs = [{"id": i, "op": "front", "src": LV_PRELUDE + f + tail, "emit": True} for i, (sig, f) in enumerate(funs)]
+    fr = serve.run_requests(reqs)
+    fails, good = [], []
+    n_acc = 0
+    for i, (sig, f) in enumerate(funs):
+        r = fr[i]
+        if r.get("crashed") or r["check"]["status"] != "ok":
+            continue
+        n_acc += 1
+        em = r["emit"]
+        if em["status"] != "ok":
+            kind = ("emit-panic" if em["status"] == "panic" else "codegen:" + re.sub(r"'[^']*'", "'_'", (em.get("detail") or ""))[:70]).replace(" ", "_")
+            fails.append((sig, LV_PRELUDE + f + tail, kind, em.get("detail") or em.get("panic") or ""))
+        else:
+            good.append((sig, f))
+    packs = [[g for g in good if g[0][0] == b] for b in ("lvalue:local", "lvalue:mut_param", "lvalue:self_field")]
+    packs = [p for p in packs if p]
+    built = 0
+    prog = lambda fs: LV_PRELUDE + "\n\n".join(f for _, f in fs) + tail
+    while packs:
+        res = pipe.run_many([(k, {"prog.incn": prog(p)}, {"run": False}) for k, p in enumerate(packs)])
+        nxt = []
+        for k, p in enumerate(packs):
+            if res[k].ok:
+                built += len(p)
+            elif len(p) == 1:
+                fails.append((p[0][0], prog(p), outcome_kind(res[k]), res[k].stderr[-1500:]))
+            else:
+                h = len(p) // 2
+                nxt += [p[:h], p[h:]]
+        packs = nxt
+    for sig, src, kind, detail in fails:
+        out.fail("|".join(sig) + f"|{kind}", {"program": src, "sig": list(sig), "detail": detail})
+    ok_sigs = {sig for sig, f in good} - {sig for sig, *_ in fails}
+    return {"lvalue_functions": len(funs), "lvalue_accepted": n_acc, "lvalue_built": built}, ok_sigs
+
+
 
 
 def typed_part(out, tier):
